@@ -328,6 +328,88 @@ Section Proofs.
   Qed.
 End Proofs.
 
+(* ---- the publisher under concurrency ---- *)
+
+Lemma root_after_app pre post root : root_after (pre ++ post) root = root_after post (root_after pre root).
+Proof. revert root. induction pre as [|[r|i|i] pre IH]; intro root; cbn; auto. Qed.
+
+(* after a SetRoot with no later SetRoot the root is the one that was set *)
+Lemma root_after_last pre r mid root :
+  (forall r', ~ In (PSetRoot r') mid) -> root_after (pre ++ PSetRoot r :: mid) root = r.
+Proof.
+  intro N. rewrite root_after_app. cbn. clear pre root.
+  revert r. induction mid as [|[r'|i|i] mid IH]; intro r; cbn; auto.
+  - exfalso. apply (N r'). left. reflexivity.
+  - apply IH. intros r' I. apply (N r'). right. exact I.
+  - apply IH. intros r' I. apply (N r'). right. exact I.
+Qed.
+
+Section PubProofs.
+  Variables privkey pubkey sigt : Type.
+  Variable pub : privkey -> pubkey.
+  Variable sign : privkey -> bytes -> sigt.
+
+  (* every response of every schedule is the head signed for the root the request read: the
+     root current when it went through its critical section *)
+  Lemma pub_run_outputs topic k : forall evs st i out,
+    In (i, out) (pub_run pub sign topic k evs st) ->
+    (exists r, plookup i (p_pend st) = Some r /\ out = serve_head pub sign r topic k) \/
+    (exists pre post, evs = pre ++ PRead i :: post /\
+                      out = serve_head pub sign (root_after pre (p_root st)) topic k).
+  Proof.
+    induction evs as [|[r|j|j] evs IH]; intros st i out H; cbn in H; [contradiction| | |].
+    - apply IH in H as [(r0 & L & E)|(pre & post & E1 & E2)]; cbn in *.
+      + left. eauto.
+      + right. exists (PSetRoot r :: pre), post. subst. auto.
+    - apply IH in H as [(r0 & L & E)|(pre & post & E1 & E2)]; cbn in *.
+      + destruct (j =? i) eqn:J.
+        * apply N.eqb_eq in J. subst j. inversion L; subst. right. exists [], evs. auto.
+        * left. eauto.
+      + right. exists (PRead j :: pre), post. subst. auto.
+    - destruct (plookup j (p_pend st)) as [r|] eqn:L.
+      + destruct H as [H|H].
+        * inversion H; subst. left. eauto.
+        * apply IH in H as [(r0 & L0 & E)|(pre & post & E1 & E2)]; [left; eauto|].
+          right. exists (PServe j :: pre), post. subst. auto.
+      + apply IH in H as [(r0 & L0 & E)|(pre & post & E1 & E2)]; [left; eauto|].
+        right. exists (PServe j :: pre), post. subst. auto.
+  Qed.
+End PubProofs.
+
+Section PubTheorem.
+  Variables privkey pubkey sigt peerid : Type.
+  Variable pub : privkey -> pubkey.
+  Variable sign : privkey -> bytes -> sigt.
+  Variable verify : pubkey -> bytes -> sigt -> bool.
+  Variable peer_id : pubkey -> peerid.
+  Variable peerid_eqb : peerid -> peerid -> bool.
+  Hypothesis VS : VerifySign pub sign verify.
+  Hypothesis VU : VerifyUnique pub sign verify.
+  Hypothesis EQB : forall a b, peerid_eqb a b = true <-> a = b.
+
+  Theorem published_head_follows_set_root_proved topic k evs i out :
+    In (i, out) (pub_run pub sign topic k evs (PubState None [])) ->
+    exists pre post, evs = pre ++ PRead i :: post /\
+      let r := root_after pre None in
+      out = serve_head pub sign r topic k /\
+      (forall c, r = Some c ->
+         exists sh, out = Some sh /\ sh_cid sh = c /\
+                    validate_head verify peer_id sh = Ok (peer_id (pub k)) /\
+                    get_head verify peer_id peerid_eqb (Some (peer_id (pub k))) out = Ok c) /\
+      (r = None -> out = None) /\
+      (forall pre' r' mid, pre = pre' ++ PSetRoot r' :: mid ->
+         (forall r'', ~ In (PSetRoot r'') mid) -> r = r').
+  Proof.
+    intro H. apply pub_run_outputs in H as [(r0 & L & _)|(pre & post & E1 & E2)]; [discriminate|].
+    cbn [p_root] in E2. exists pre, post. split; [exact E1|]. cbv zeta. split; [exact E2|]. split; [|split].
+    - intros c Hr. rewrite Hr in E2. cbn in E2. eexists. split; [exact E2|]. split; [reflexivity|].
+      destruct (published_head_verifies_proved _ _ _ _ pub sign verify peer_id peerid_eqb VS VU EQB c topic k) as (A & B & _).
+      split; [exact A|]. rewrite E2. exact B.
+    - intro Hr. rewrite Hr in E2. exact E2.
+    - intros pre' r' mid E N. rewrite E. apply root_after_last. exact N.
+  Qed.
+End PubTheorem.
+
 (* ------------------------------------------------------------------ *)
 (* non-vacuity on the symbolic instance *)
 
